@@ -389,6 +389,7 @@ func execC16(spec *RunSpec) *Result {
 	outs, rep, _ := runHistory(spec, spec.Kernel)
 	res.addStat("cases", int64(len(spec.Ops)))
 	res.addStat("steps", rep.Steps)
+	res.addStat("clock_span_ns", rep.ClockSpanNs)
 	res.addStat("clock_reads", rep.ClockReads)
 	h := hashBytes()
 	for i, op := range spec.Ops {
